@@ -5,7 +5,7 @@ passes without it, optionally the whole existing suite passes with it), runs the
 against it (VERIF_REPO), and stores everything under /verif/seeded/<id>/."""
 import sys, os, subprocess, json, shutil, re, glob, time
 V = os.path.dirname(os.path.dirname(os.path.abspath(__file__)))
-src, sid = sys.argv[1], sys.argv[2]
+src, sid = os.path.abspath(sys.argv[1]), sys.argv[2]
 props = [sid.split("_")[0]]
 suite = "--suite" in sys.argv
 for i, a in enumerate(sys.argv):
@@ -95,8 +95,19 @@ finally:
 dst = os.path.join(V, "seeded", sid)
 os.makedirs(dst, exist_ok=True)
 for f in glob.glob(os.path.join(src, "*")):
-    if os.path.isfile(f) and not f.endswith(".log"):
+    if os.path.isfile(f) and not f.endswith(".log") and os.path.abspath(f) != os.path.abspath(os.path.join(dst, os.path.basename(f))):
         shutil.copy(f, dst)
+try:
+    old = json.load(open(os.path.join(dst, "meta.json")))
+    for k in ("suite_passes_with_change", "suite_run"):
+        if k in old and k not in meta:
+            meta[k] = old[k]
+    # checks of other properties run earlier stay on record
+    for pr, rs in old.get("checks", {}).items():
+        meta.setdefault("checks", {}).setdefault(pr, rs)
+    meta["detected_by"] = [pr for pr, rs in meta.get("checks", {}).items() if any(r["exit"] == 1 for r in rs)]
+except (OSError, ValueError):
+    pass
 json.dump(meta, open(os.path.join(dst, "meta.json"), "w"), indent=1)
 print(sid, "applies", meta.get("applies"), "compiles", meta.get("compiles"), "demo fails/passes", meta.get("demo_fails_with_change"), meta.get("demo_passes_without"),
       "suite", meta.get("suite_passes_with_change"), "detected_by", meta.get("detected_by"), {k: [(r["seed"], r["exit"]) for r in v] for k, v in meta.get("checks", {}).items()})
